@@ -253,27 +253,55 @@ def r3_index(ctx):
     col_loops = [n for n in walk_local(run_.node) if isinstance(n, ast.For) and 'enumerate(row)' in src(n.iter)]
     for a in apps:
         at = f'{run_.module.relpath}:{a.lineno}'
-        ok_arg = len(a.args) == 1 and src(a.args[0]) == 'self._tree_stage'
-        in_col_loop = any(a in list(ast.walk(lp)) for lp in col_loops)
-        after = all(a.lineno > lp.end_lineno for lp in col_loops)
-        guard = None
+        guard, g_size = None, None
         for n in walk_local(run_.node):
             if isinstance(n, ast.If) and a in [x for s in n.body for x in ast.walk(s)]:
-                guard = n if guard is None or n.lineno > guard.lineno else guard
-        okg = guard is not None and isinstance(guard.test, ast.Name)
+                size = sum(1 for _ in ast.walk(n))      # the innermost `if` around the append (line numbers move with helpers)
+                if guard is None or size < g_size:
+                    guard, g_size = n, size
+        # the row flag: a name tested as such, or a carried value tested against None
+        flag = None
+        if guard is not None:
+            t_ = guard.test
+            if isinstance(t_, ast.Name):
+                flag = t_.id
+            elif isinstance(t_, ast.Compare) and len(t_.ops) == 1 and isinstance(t_.ops[0], ast.IsNot) and isinstance(t_.left, ast.Name) \
+                    and isinstance(t_.comparators[0], ast.Constant) and t_.comparators[0].value is None:
+                flag = t_.left.id
+            elif isinstance(t_, ast.UnaryOp) and isinstance(t_.op, ast.Not) and isinstance(t_.operand, ast.Compare) and len(t_.operand.ops) == 1 \
+                    and isinstance(t_.operand.ops[0], ast.Is) and isinstance(t_.operand.left, ast.Name) \
+                    and isinstance(t_.operand.comparators[0], ast.Constant) and t_.operand.comparators[0].value is None:
+                flag = t_.operand.left.id
+        okg = flag is not None
+        in_col_loop = any(a in list(ast.walk(lp)) for lp in col_loops)
+        is_reset = lambda v: isinstance(v, ast.Constant) and (v.value is False or v.value is None)
+        sets = [n for n in walk_local(run_.node) if isinstance(n, ast.Assign) and any(F.is_name(t, flag) for t in n.targets)] if okg else []
+        resets = [s_ for s_ in sets if is_reset(s_.value)]
+        trues = [s_ for s_ in sets if not is_reset(s_.value)]
+        # what is appended: the current stage, directly or as the value the flag carries
+        ok_arg = len(a.args) == 1 and (src(a.args[0]) == 'self._tree_stage'
+                                       or (okg and F.is_name(a.args[0], flag) and trues and all(src(s_.value) == 'self._tree_stage' for s_ in trues)))
+        # on every path through one turn of the row loop: at most one append, and after the cells of the row were read
+        after = True
+        rows_ = [n for n in docstring_free(run_.body) if isinstance(n, ast.For)]
+        if len(rows_) != 1:
+            raise AnalysisError(f'{run_.loc}: the row loop of Importer.run is not recognised')
+        for sp in symex.sym_paths(rows_[0].body, limit=60000, fi=run_):
+            if sp.end == 'raise':
+                continue
+            i_app = [i for i, e in enumerate(sp.events) if e.kind == 'expr' and isinstance(e.expr, ast.Call) and src(e.expr.func) == f'{idx}.append']
+            i_cells = [i for i, e in enumerate(sp.events) if e.kind in ('iter', 'skip') and any(e.node is lp for lp in col_loops)]
+            if len(i_app) > 1 or (i_app and i_cells and i_app[0] < max(i_cells)):
+                after = False
         ctx.check(ok_arg and not in_col_loop and after and okg, 'R3', at, run_.qualname, 'index-append-once-per-row',
                   'the measure index receives the current stage at most once per row, after the cells of the row, under a flag',
                   'the measure index is appended inside the column loop or without the row flag: a row with several barlines '
                   'would open several measures')
         if not okg:
             continue
-        flag = guard.test.id
-        sets = [n for n in walk_local(run_.node) if isinstance(n, ast.Assign) and any(F.is_name(t, flag) for t in n.targets)]
-        resets = [s for s in sets if src(s.value) == 'False']
-        trues = [s for s in sets if src(s.value) == 'True']
         ok_reset = len(resets) == 1 and not any(resets[0] in list(ast.walk(lp)) for lp in col_loops)
         ctx.check(ok_reset and len(trues) >= 1 and len(sets) == len(resets) + len(trues), 'R3', at, run_.qualname, 'flag-discipline',
-                  'the flag is cleared once per row before the cells and only ever set to True inside the row')
+                  'the flag is cleared once per row before the cells and only ever set inside the row')
         # on every path through the cells of a row that builds a node for an ordinary token: the flag is set exactly when the
         # token is a barline, or core material while no measure is open yet (whatever the branching / helper structure)
         bar_a, core_a, nf_a = BAR_A, CORE_A, NF_A
@@ -281,8 +309,7 @@ def r3_index(ctx):
         bad, n_paths = [], 0
         for sp, tok, f_, _add in cell_paths(ctx, run_):
             n_paths += 1
-            sets_flag = any(e.kind == 'assign' and e.target == [flag] and isinstance(e.expr, ast.Constant) and e.expr.value is True
-                            for e in sp.events)
+            sets_flag = any(e.kind == 'assign' and e.target == [flag] and not is_reset(e.expr) for e in sp.events)
             ats = G.atoms_of(f_)
             named = [a_ for a_ in (bar_a, core_a, nf_a)]
             free = [a_ for a_ in ats if a_ not in named]
